@@ -80,9 +80,6 @@ End Unmarshal.
 Definition raw_of (f : frame) : N * list N :=
   match f_msg f with MRaw i p => (i, p) | MDec i _ => (i, []) end.
 
-Definition has_empty_bytes (p : list N) : bool :=
-  Nat.ltb 1 (length p) && (last p 1 =? 0).
-
 Definition window : N := 1000000.
 
 (* the replay window on the newest accepted timestamp [cur] (0 = none yet) *)
@@ -102,7 +99,8 @@ Definition check_key (key : list N) (st : rstate) (f : frame) : option N * rstat
     (None, mkRstate (window_update cur (f_ts f)))
   end.
 
-(* the DialectRW block of Reader.Read *)
+(* the DialectRW block of Reader.Read: checksum gate, decode, and — when the received payload
+   is not the canonical encoding of the decoded message — the checksum of the canonical one *)
 Definition check_dialect (d : dialect) (f : frame) : rresult :=
   let '(id, p) := raw_of f in
   match dlookup d id with
@@ -113,9 +111,12 @@ Definition check_dialect (d : dialect) (f : frame) : rresult :=
     | Err _ => RParse pe_decode
     | Panic => RParse pe_panic
     | Ok v =>
-      if f_v2 f && has_empty_bytes p then
-        RFrame (set_msg (set_ck f (gen_checksum f id (strip_zeros p) (c_crc c))) (MDec id v))
-      else RFrame (set_msg f (MDec id v))
+      match msg_write c (f_v2 f) v with
+      | Ok p' =>
+        if bytes_eqb p' p then RFrame (set_msg f (MDec id v))
+        else RFrame (set_msg (set_ck f (gen_checksum f id p' (c_crc c))) (MDec id v))
+      | _ => RParse pe_panic
+      end
     end
   end.
 
